@@ -18,7 +18,7 @@ PROPERTY = "C08"
 LEVEL = "exploration"
 RULE = ("operators: SBX / polynomial / uniform / non-uniform mutation in dimension 1 over 9 lattice parent values per coordinate (bounds, "
         "+-1 ulp, quarter points, midpoint, midpoint+2^-52|mid|, midpoint+1e-14 w) x every combination of draws (decision draws low/high, "
-        "value draws in {0, 5e-324, .25, .5, .75, 1-2^-53}) x 7 boxes x distribution indices {0,1,15,20,100} x probabilities {0,.5,1} x "
+        "value draws in {0, 5e-324, .25, .5, .75, 1-2^-53}) x 7 boxes x distribution indices {0,1,15,20,100} x probabilities {.5,1} (thorough also 0) x "
         "iterations {0,1,max/2,max}; dimension 2 (thorough 3) on a reduced parent lattice; generators: all DoE/random generators over the "
         "boxes with/without precision; runs: NSGA-II, EpsMOEA, OMOPSO, SMPSO, PSOGA, N in {2,3,4}, G in {1,2,3}, 1-2 parameters, 3 box sets, "
         "<=1 (thorough 2) deviations among all decision/pick/value draws; NSGA-II additionally started from designs on the bounds with every objective call allowed to fail transiently. Non-trivial = a case in which at least one draw mutates or crosses; "
@@ -127,7 +127,7 @@ def check_operator(op, boxes, parents, cfg, draws):
 def operator_cases(op, dim, tier):
     """Yield (boxes, parents, cfg, draws)."""
     etas = (0, 1, 15, 20, 100)
-    probs = (0.0, 0.5, 1.0)
+    probs = (0.0, 0.5, 1.0) if tier == "thorough" else (0.5, 1.0)      # probability 0 never varies anything
     boxes_list = BOXES if dim == 1 else (BOXES if tier == "thorough" else BOXES[:1] + BOXES[2:3] + BOXES[5:6])
     for box in boxes_list:
         boxes = [box] * dim
@@ -353,5 +353,9 @@ def run(tier, seed):
     for (N, G) in ((2, 1), (3, 2)):
         for nparams, boxset in ((1, "unit"), (2, "negtiny"), (2, "hugefar")):
             shards.append(("run", "NSGAII", N, G, nparams, boxset, seed, 1, 0, 1, True))
+    for name in ("NSGAII", "EpsMOEA", "OMOPSO", "SMPSO", "PSOGA"):      # long and larger runs, default execution
+        for (N, G) in ((4, 12), (10, 5)):
+            for nparams, boxset in ((2, "negtiny"), (2, "hugefar")):
+                shards.append(("run", name, N, G, nparams, boxset, seed, 0, 0, 1))
     col = run_shards(_shard, shards)
     return col, {"exhaustive": col.counters.get("caps_hit", 0) == 0, "boxes": BOXES, "value_draws": [repr(d) for d in DRAWS]}
